@@ -300,6 +300,8 @@ class Workspace(AbstractContextManager):
             entity_type = Data
 
         entity_kwargs.pop("property_groups", None)
+        # the depth channel of a drillhole is one of its children: the copy finds its own
+        entity_kwargs.pop("depths", None)
 
         new_object = parent.workspace.create_entity(
             entity_type, **{"entity": entity_kwargs, "entity_type": entity_type_kwargs}
